@@ -501,48 +501,38 @@ var leafExceptions = map[string]string{
 // inside SetFunctionNode methods with name: node.symbol.Symbol().
 func ruleC20SetNames(c *Ctx) {
 	p := c.P
-	pk := p.pkg("ast")
+	sfn := p.Named("ast", "SetFunctionNode")
+	symFld := p.Field("ast", "SetFunctionNode", "symbol")
 	for _, tn := range []string{"AllOfSetExprNode", "AnyOfSetExprNode"} {
 		named := p.Named("ast", tn)
+		nameFld := p.Field("ast", tn, "name")
 		n := 0
-		for _, f := range pk.Syntax {
-			for _, d := range f.Decls {
-				fd, ok := d.(*ast.FuncDecl)
-				if !ok || fd.Body == nil {
-					continue
-				}
-				ast.Inspect(fd.Body, func(nd ast.Node) bool {
-					cl, ok := nd.(*ast.CompositeLit)
+		// every place that builds such a node (a method of SetFunctionNode, an entry of a constructor table,
+		// a helper handed the set function node): the name it is given is <set function node>.symbol.Symbol()
+		for _, fn := range c.prodFuncs("ast") {
+			for _, b := range fn.Blocks {
+				for _, in := range b.Instrs {
+					st, ok := in.(*ssa.Store)
 					if !ok {
-						return true
+						continue
 					}
-					t := pk.TypesInfo.TypeOf(cl)
-					if t == nil || namedOf(t) != named {
-						return true
+					f, base := fieldOfAddr(st.Addr)
+					if !sameVar(f, nameFld) || namedOf(base.Type()) != named {
+						continue
 					}
 					n++
-					construct := "ast." + tn + " literal in " + fd.Name.Name
+					construct := "ast." + tn + " built in " + FnName(fn)
+					c.Analysed(FnName(fn))
 					okShape := false
-					recvOK := fd.Recv != nil && len(fd.Recv.List) == 1 && namedOf(pk.TypesInfo.TypeOf(fd.Recv.List[0].Type)) == p.Named("ast", "SetFunctionNode")
-					for _, el := range cl.Elts {
-						kv, ok := el.(*ast.KeyValueExpr)
-						if !ok {
-							continue
-						}
-						if id, ok := kv.Key.(*ast.Ident); ok && id.Name == "name" {
-							// node.symbol.Symbol()
-							if call, ok := kv.Value.(*ast.CallExpr); ok {
-								if sel, ok := call.Fun.(*ast.SelectorExpr); ok && sel.Sel.Name == "Symbol" {
-									if inner, ok := sel.X.(*ast.SelectorExpr); ok && inner.Sel.Name == "symbol" {
-										okShape = true
-									}
-								}
+					if call, isCall := st.Val.(*ssa.Call); isCall && call.Call.IsInvoke() && call.Call.Method.Name() == "Symbol" {
+						if sf, sbase := loadedField(call.Call.Value); sameVar(sf, symFld) && sbase != nil {
+							if pt, isP := sbase.Type().(*types.Pointer); isP && namedOf(pt.Elem()) == sfn {
+								okShape = true
 							}
 						}
 					}
-					c.Check(okShape && recvOK, "C20.SETNAME", construct, p.Pos(cl.Pos()), "built in a SetFunctionNode method with name: node.symbol.Symbol()", "a set-expression node is built with a name that is not the forwarded symbol's name: the tabled leaf exception no longer holds")
-					return true
-				})
+					c.Check(okShape, "C20.SETNAME", construct, p.Pos(st.Pos()), "named after the set function node's symbol: name = node.symbol.Symbol()", "a set-expression node is built with a name that is not the forwarded symbol's name: the tabled leaf exception no longer holds")
+				}
 			}
 		}
 		if n == 0 {
@@ -777,6 +767,71 @@ func ruleC20Validator(c *Ctx) {
 			}
 			return false
 		})
+	}
+	if !(found && guarded) {
+		// decided instead: run VisitSymbol for (error already latched?) x (symbol public?) and look at what it
+		// stores into the error field — however the test and the store are arranged (a helper returning the
+		// error, a guard clause)
+		errIdx := -1
+		if vt, isSt := derefType(fn.Params[0].Type()).Underlying().(*types.Struct); isSt {
+			for i := 0; i < vt.NumFields(); i++ {
+				if sameVar(vt.Field(i), errFld) {
+					errIdx = i
+				}
+			}
+		}
+		decidedAll, good := errIdx >= 0, true
+		for _, latched := range []bool{false, true} {
+			for _, public := range []bool{false, true} {
+				asked := 0
+				oracle := func(v ssa.Value) (AV, bool) {
+					if v == ssa.Value(fn.Params[0]) {
+						return AV{Kind: "nonnil", Sym: "alloc:recv"}, true
+					}
+					if call, isCall := v.(*ssa.Call); isCall {
+						if isPublicTest(call) {
+							asked++
+							return avBool(public), true
+						}
+						if cal, _ := calleeOf(call.Common()); cal != nil && isErrorCtor(cal) {
+							return AV{Kind: "nonnil", Sym: "newerr"}, true
+						}
+					}
+					if u, isU := v.(*ssa.UnOp); isU && u.Op == token.MUL {
+						if ff, base := loadedField(u); sameVar(ff, errFld) && base == ssa.Value(fn.Params[0]) {
+							if latched {
+								return AV{Kind: "nonnil", Sym: "olderr"}, true
+							}
+							return AV{Kind: "nil"}, true
+						}
+					}
+					return AV{}, false
+				}
+				_, mem, derr := DecideMem(fn, oracle)
+				if derr != "" {
+					decidedAll = false
+					continue
+				}
+				stored, wrote := mem[fmt.Sprintf("arecv.f%d", errIdx)]
+				switch {
+				case latched:
+					if wrote && stored.Sym != "olderr" {
+						good = false // the first error is replaced
+					}
+				case public:
+					if wrote && stored.Kind != "nil" {
+						good = false
+					}
+				default:
+					if !wrote || stored.Kind != "nonnil" || asked == 0 {
+						good = false
+					}
+				}
+			}
+		}
+		if decidedAll {
+			found, guarded = true, good
+		}
 	}
 	c.Check(found && guarded, "C20.VALIDATOR", "boltz.publicSymbolValidator.VisitSymbol: latch", p.Pos(fn.Pos()),
 		"records an error exactly when IsPublicSymbol(symbol) is false, keeping the first error", "the validator does not record an error under !IsPublicSymbol(symbol) && err == nil")
